@@ -4,7 +4,7 @@
   bootstrap.pl), so everything proved about clause activations applies to it.  Also: the state
   `runQuery` starts from.
 -/
-import PrologVerif.Proofs.RefineDfs
+import PrologVerif.Proofs.RefineDfs2
 import PrologVerif.Driver.C01
 namespace PrologVerif.Refine
 open PrologVerif PrologVerif.VM PrologVerif.DecompileCompile PrologVerif.Activation
@@ -24,156 +24,6 @@ mutual
     | .nil => rfl
     | .cons t ts => by simp only [Driver.C01.shiftArgs, SLD.shiftArgs, shiftVars_eq k t, shiftArgs_eq k ts]
 end
-
-/-! ### variables of the query -/
-
-mutual
-  theorem mem_termVars {v : Nat} : ∀ (t : Term) (acc : List Nat),
-      v ∈ termVars t acc ↔ (v ∈ acc ∨ t.hasVar v = true)
-    | .var w, acc => by
-      simp only [termVars, Term.hasVar, beq_iff_eq]
-      split
-      · rename_i hc
-        simp only [List.contains_eq_mem, decide_eq_true_eq] at hc
-        constructor
-        · exact fun h => Or.inl h
-        · rintro (h | h)
-          · exact h
-          · subst h; exact hc
-      · simp only [List.mem_append, List.mem_singleton]
-        constructor
-        · rintro (h | h)
-          · exact Or.inl h
-          · exact Or.inr h.symm
-        · rintro (h | h)
-          · exact Or.inl h
-          · exact Or.inr h.symm
-    | .atom _, acc => by simp [termVars, Term.hasVar]
-    | .int _, acc => by simp [termVars, Term.hasVar]
-    | .flt _, acc => by simp [termVars, Term.hasVar]
-    | .str _, acc => by simp [termVars, Term.hasVar]
-    | .app _ as, acc => by simp only [termVars, Term.hasVar]; exact mem_argsVars as acc
-  theorem mem_argsVars {v : Nat} : ∀ (as : Args) (acc : List Nat),
-      v ∈ argsVars as acc ↔ (v ∈ acc ∨ as.hasVar v = true)
-    | .nil, acc => by simp [argsVars, Args.hasVar]
-    | .cons t ts, acc => by
-      simp only [argsVars, Args.hasVar, Bool.or_eq_true]
-      rw [mem_argsVars ts, mem_termVars t]
-      constructor
-      · rintro ((h | h) | h)
-        · exact Or.inl h
-        · exact Or.inr (Or.inl h)
-        · exact Or.inr (Or.inr h)
-      · rintro (h | h | h)
-        · exact Or.inl (Or.inl h)
-        · exact Or.inl (Or.inr h)
-        · exact Or.inr h
-end
-
-/-- the head `callGoal` gives the query's clause -/
-def qHead (g : Term) : Term :=
-  if ((termVars g []).map Term.var).isEmpty then Term.atom tupleName
-  else Term.app tupleName (Args.ofList ((termVars g []).map Term.var))
-
-theorem qHead_args (g : Term) : argList (qHead g) = (termVars g []).map Term.var := by
-  unfold qHead
-  split
-  · rename_i h
-    simp only [List.isEmpty_iff] at h
-    simp [argList, h]
-  · simp [argList]
-
-theorem qHead_hasVar (g : Term) (v : Nat) : (qHead g).hasVar v = true ↔ g.hasVar v = true := by
-  have hm := mem_termVars (v := v) g []
-  simp only [List.not_mem_nil, false_or] at hm
-  rw [← hm]
-  unfold qHead
-  split
-  · rename_i h
-    simp only [List.isEmpty_iff, List.map_eq_nil_iff] at h
-    simp [Term.hasVar, h]
-  · simp only [Term.hasVar, hasVar_ofList_iff, List.mem_map]
-    constructor
-    · rintro ⟨t, ⟨w, hw, rfl⟩, ht⟩
-      simp only [Term.hasVar, beq_iff_eq] at ht
-      subst ht; exact hw
-    · intro h
-      exact ⟨.var v, ⟨v, h, rfl⟩, by simp [Term.hasVar]⟩
-
-theorem qHead_shape (g : Term) : Shape (qHead g) := by
-  unfold qHead
-  split
-  · exact Or.inl ⟨_, rfl⟩
-  · rename_i h
-    refine Or.inr ⟨_, _, rfl, ?_⟩
-    cases hl : (termVars g []).map Term.var with
-    | nil => simp [hl] at h
-    | cons a as => simp [Args.ofList, Args.length]
-
-/-! ### the NUL atom is no predicate of bootstrap.pl -/
-
-def bootNoTuple : Bool := bootState.procs.all (fun e => e.1.1 != tupleName)
-
-theorem bootNoTuple_eq : bootNoTuple = true := by decide +kernel
-
-theorem lookup_none_of_all {α β : Type} [BEq α] [LawfulBEq α] (k : α) :
-    ∀ l : List (α × β), (∀ e ∈ l, e.1 ≠ k) → l.lookup k = none
-  | [], _ => rfl
-  | (a, b) :: l, h => by
-    have ha : a ≠ k := h (a, b) (by simp)
-    have : (k == a) = false := by simpa using fun e => ha e.symm
-    simp only [List.lookup, this]
-    exact lookup_none_of_all k l (fun e he => h e (by simp [he]))
-
-theorem userPred_tuple (n : Nat) : userPred tupleName n = true := by
-  have h := bootNoTuple_eq
-  simp only [bootNoTuple, List.all_eq_true, bne_iff_ne, ne_eq] at h
-  simp only [userPred, Bool.and_eq_true, Bool.not_eq_true', Option.isNone_iff_eq_none]
-  constructor
-  · decide
-  · unfold lookupProc
-    apply lookup_none_of_all
-    intro e he heq
-    exact h e he (by rw [heq])
-
-/-! ### the query's clause is a clause of the fragment -/
-
-mutual
-  theorem wfT_rename (ρ : Nat → Nat) : ∀ t : Term, wfT (t.rename ρ) = wfT t
-    | .var _ => rfl
-    | .atom _ => rfl
-    | .int _ => rfl
-    | .flt _ => rfl
-    | .str _ => rfl
-    | .app f .nil => rfl
-    | .app f (.cons a as) => by
-      have h1 := wfT_rename ρ a
-      have h2 := wfAs_rename ρ as
-      simp only [Term.rename, Args.rename] at h1 h2
-      simp only [Term.rename, Term.subst, Args.subst, wfT, h1, h2]
-  theorem wfAs_rename (ρ : Nat → Nat) : ∀ as : Args, wfAs (as.rename ρ) = wfAs as
-    | .nil => rfl
-    | .cons t ts => by
-      have h1 := wfT_rename ρ t
-      have h2 := wfAs_rename ρ ts
-      simp only [Term.rename, Args.rename] at h1 h2
-      simp only [Args.rename, Args.subst, wfAs, h1, h2]
-end
-
-theorem wfAs_ofList_vars : ∀ l : List Nat, wfAs (Args.ofList (l.map Term.var)) = true
-  | [] => rfl
-  | _ :: l => by simp [Args.ofList, wfAs, wfT, wfAs_ofList_vars l]
-
-theorem wfT_qHead (g : Term) : wfT (qHead g) = true := by
-  unfold qHead
-  split
-  · rfl
-  · rename_i h
-    cases hl : (termVars g []) with
-    | nil => simp [hl] at h
-    | cons a as =>
-      simp only [List.map_cons, Args.ofList, wfT, Bool.true_and]
-      exact wfAs_ofList_vars as
 
 theorem cutGoal_rename (ρ : Nat → Nat) (t : Term) : cutGoal (t.rename ρ) = cutGoal t := by
   unfold cutGoal
@@ -198,67 +48,8 @@ theorem bodyOK_shift (k : Nat) (b : Term) : bodyOK (SLD.shift k b) = bodyOK b :=
   funext t
   simp only [Function.comp, shift_eq_rename, cutGoal_rename]
 
-theorem bodyOK_not_var {b : Term} (h : bodyOK b = true) : ∀ v, b ≠ .var v := by
-  rintro v rfl
-  simp only [bodyOK, SLD.conjuncts, SLD.wrapVar, SLD.call1, List.all_cons, List.all_nil, Bool.and_true] at h
-  rcases cutGoal_cases h with h | h
-  · cases h
-  rcases hornGoal_shape h with ⟨f, hf, _⟩ | ⟨a, b, hab⟩ | ⟨f, as, hfa, hu, _⟩
-  · cases hf
-  · simp at hab
-  · simp only [Term.app.injEq] at hfa
-    obtain ⟨rfl, rfl⟩ := hfa
-    exact reserved_not_user hu (by decide)
-
-/-- the clause `callGoal` compiles for the goal `g` -/
-def qClause (g : Term) : Term := SLD.rule (qHead g) g
-
-theorem clauseOK_qClause {g : Term} (hb : bodyOK g = true) (hw : wfT g = true) :
-    clauseOK (qClause g) = true := by
-  have hh : hornHead (qHead g) = true := by
-    unfold qHead
-    split
-    · simp [hornHead, userPred_tuple]
-    · rename_i h
-      simp only [hornHead, Bool.and_eq_true, decide_eq_true_eq, userPred_tuple, and_true]
-      cases hl : (termVars g []).map Term.var with
-      | nil => simp [hl] at h
-      | cons a as => simp [Args.ofList, Args.length]
-  simp only [clauseOK, qClause, headBody_rule, SLD.rule, SLD.mk2, wfT, wfAs, Bool.and_true, Bool.and_eq_true]
-  exact ⟨⟨⟨wfT_qHead g, hw⟩, hh⟩, hb⟩
-
-/-! ### `callGoal` on the empty environment -/
-
-theorem res_nonvar (env : Env) (t : Term) (h : ∀ v, t ≠ .var v) : res env t = t := by
-  unfold res
-  cases t with
-  | var v => exact absurd rfl (h v)
-  | _ => simp [resolve]
-
-theorem app_nil (t : Term) : app [] t = t := by
-  unfold app
-  cases h : applyAll inner [] t with
-  | none => rfl
-  | some t' =>
-    simp only [Option.getD_some]
-    rw [applyAll_eq_subst isMGU_empty inner t t' h, Term.subst_id]
-
-theorem callGoal_query (g : Term) (K : Cont) (m : MS) (hb : bodyOK g = true) (hw : wfT g = true) :
-    callGoal g K [] m = clausesCall [clauseOf (qClause g)] (argList (qHead g)) K [] m := by
-  have hnv := bodyOK_not_var hb
-  unfold callGoal
-  rw [res_nonvar [] g hnv]
-  have hcc : compileCall g [] = .ok ([clauseOf (qClause g)], argList (qHead g)) := by
-    unfold compileCall
-    simp only [app_nil]
-    have := (clauseOf_spec (qClause g) (clauseOK_qClause hb hw)).1
-    change (match compile (toRep (qClause g)) with
-      | .ok cs => Except.ok (cs, (termVars g []).map Term.var)
-      | .error e => .error e) = _
-    rw [this, qHead_args]
-  cases g with
-  | var v => exact absurd rfl (hnv v)
-  | _ => simp only [hcc]
+theorem bodyS_shift (fl : Bool) (k : Nat) (b : Term) : bodyS fl (SLD.shift k b) = bodyS fl b := by
+  rw [shift_eq_rename, bodyS_rename]
 
 /-! ### the initial state -/
 
@@ -301,5 +92,21 @@ theorem initState_nextVar (prog : List Term) :
   simp only [loadClauses_nil]
   unfold bootState
   exact loadClauses_nextVar Generated.bootstrapTerms {}
+
+theorem assertStep_cancelAt (s : St) (c : Term) : (assertStep s c).cancelAt = s.cancelAt := by
+  unfold assertStep
+  split
+  · rfl
+  · rfl
+
+theorem assertProg_cancelAt : ∀ (prog : List Term) (s : St), (prog.foldl assertStep s).cancelAt = s.cancelAt
+  | [], _ => rfl
+  | c :: prog, s => by
+    rw [List.foldl_cons, assertProg_cancelAt prog _]
+    exact assertStep_cancelAt s c
+
+theorem initState_cancelAt (prog : List Term) : (initState prog none).cancelAt = none := by
+  unfold initState
+  rw [assertProg_cancelAt prog _]
 
 end PrologVerif.Refine
